@@ -226,6 +226,25 @@ class StructModel:
     def calcsize(self, fmt):
         return _struct.calcsize(fmt)
 
+    @staticmethod
+    def _tokens(f):
+        """'5I' -> ['I']*5, '2sH' -> ['2s', 'H']; None if not understood"""
+        import re
+        toks = []
+        pos = 0
+        for m in re.finditer(r'\s*(\d*)([a-zA-Z?])', f):
+            if m.start() != pos:
+                return None
+            pos = m.end()
+            cnt, code = m.group(1), m.group(2)
+            if code in 'sp':
+                toks.append((cnt or '1') + code)
+            elif code == 'x':
+                return None
+            else:
+                toks += [code] * (int(cnt) if cnt else 1)
+        return toks if pos == len(f) else None
+
     def pack(self, fmt, *vals):
         self.calls += 1
         if not isinstance(fmt, SFormat) and not any(is_sym(v) for v in vals):
@@ -242,7 +261,15 @@ class StructModel:
                 raise _struct.error('bad char in struct format')
             return SBytes((items + [0] * n)[:n]).fold()
         if len(f) != 1 or len(vals) != 1:
-            raise Unsupported('struct.pack(%r) on symbolic data' % (fmt,))
+            toks = self._tokens(f)
+            if toks is None or order == '@' or len(toks) != len(vals) \
+                    or len(toks) < 1 or toks == [f]:
+                raise Unsupported('struct.pack(%r) on symbolic data'
+                                  % (fmt,))
+            out = []
+            for t, v in zip(toks, vals):
+                out += list(bytes_items(self.pack(order + t, v)))
+            return SBytes(out).fold()
         v = vals[0]
         from . import fp
         if f == '?':
@@ -295,7 +322,20 @@ class StructModel:
                                     % (n,))
             return (data.fold(),)
         if len(f) != 1:
-            raise Unsupported('struct.unpack(%r) on symbolic data' % (fmt,))
+            toks = self._tokens(f)
+            if toks is None or order == '@' or toks == [f]:
+                raise Unsupported('struct.unpack(%r) on symbolic data'
+                                  % (fmt,))
+            sizes = [_struct.calcsize(order + t) for t in toks]
+            if sum(sizes) != len(data):
+                raise _struct.error('unpack requires a buffer of %d bytes'
+                                    % sum(sizes))
+            out, pos = [], 0
+            for t, n in zip(toks, sizes):
+                out += list(self.unpack(order + t,
+                                        SBytes(data.items[pos:pos + n])))
+                pos += n
+            return tuple(out)
         W = Ctx.cur.W
         if f == '?':
             if len(data) != 1:
